@@ -12,8 +12,12 @@ NOTE = ("Trusted: Lean 4.33 kernel + axioms propext/Classical.choice/Quot.sound 
 CHECKS = {
  "C18": ("Theorems over the list model of FuelConsumption.__add__/__mul__/fuel_by_mass_fraction for an arbitrary commutative-monoid mass type (scalars and series alike): per-kind and total mass conserved, commutative, associative, neutral element, scaling, fractions sum to one / zero. 'Operands unchanged' has no content in a value model and is decided by the correspondence check only (snapshots of shared operands after every operation of a history).",
          "Lean 4 proof (induction over record lists) + model/implementation correspondence on operation histories"),
+ "C01": ("Theorem: for every group of switchboards (in particular every label class of the C02 grouping, which is a connectivity class), with shares in [0,1] and storage/PTI modes in {0,1}, delivered = drawn whenever net load implies balancing capacity; without capacity the imbalance is exactly the uncovered load. Proved over the per-step model of get_sum_load_kw_sources_symmetric / get_sum_power_avail_for_power_sources_symmetric / set_power_out_power_sources for arbitrary lists of switchboards, sources, storage/PTI units and consumers. Correspondence runs the real do_power_balance_calculation on random plants with all source kinds and compares every source output and storage/PTI input at every step.",
+         "Lean 4 proof (linear arithmetic over list sums, C02 grouping) + model/implementation correspondence on random plants and input series"),
  "C02": ("Theorems over the model of switchboard2bus_configuration (relabel-whole-group merge, as in the code after the repair of D1): same label <=> linked by a chain of closed breakers (EqvGen), for every breaker list incl. rings, stars, parallel breakers; independent of declaration order (Perm) and of the orientation of any subset of breakers; bus count = number of groups (witnessed by a list of pairwise unconnected representatives); renumbering preserves the grouping and lies in 1..no_bus; the status used for step t is the status given for step t (change indices). The pre-repair merge map is kept as groupLegacy with kernel-checked counter-examples.",
          "Lean 4 proof (invariant over the breaker fold, EqvGen) + model/implementation correspondence on breaker graphs and status series (exhaustive on <=4 switchboards in the thorough tier)"),
+ "C03": ("Theorems over the same model as C01: every running equal-sharing source and balancing storage/PTI unit of a bus has output/rating equal to the bus load fraction (one fraction per bus), a running fixed-share source delivers share x rating exactly, a stopped source or stopped balancing unit is at zero, a given-power unit keeps its power, and any common fraction for which the bus balances equals the model's (uniqueness, buses with capacity). Correspondence shared with C01.",
+         "Lean 4 proof (case analysis + field arithmetic) + model/implementation correspondence shared with C01"),
  "C15": ("Theorems over the model of min_load_table_dict + PmsLoadTable.on_pattern for every list of positive ratings (any length >= 1), every positive fraction and every load: sufficient (strictly above the load whenever some set is), all-on otherwise, minimal among non-empty sets, monotone, non-empty, loading <= fraction after an equal-sharing balance; and for the equal-size rule of feems.runsimulation (ceil): non-empty, sufficient, minimal, monotone. Proofs use only 'sorted + permutation of all patterns'. Correspondence compares table lookups exactly (integer ratings x dyadic fractions make double thresholds exact) incl. every threshold, ties, negative loads and loads above capacity; the MachineryCalculation front end is exercised by C16/C12.",
          "Lean 4 proof (sortedness + permutation argument over the pattern table) + model/implementation correspondence at and around every switching threshold"),
  "C17": ("Theorems over the storage model: energy = interval-weighted sum of terminal power x charging efficiency / discharging efficiency after converter loss, SoC formula (battery kWh, supercapacitor Wh), accumulated series starts at 0, has n+1 entries and ends at the total, stored energy never exceeds terminal energy for any series (so equal charge and discharge never raise the SoC), closed form for one charge/discharge. The converter is an abstract function constrained only by 'never creates energy'; in the correspondence its per-sample value is an oracle read from the real converter.",
